@@ -91,8 +91,23 @@ impl<const N: usize> SecretKey<N> {
 
     pub(crate) fn gen_b0(seed: [u8; 32]) -> [Polynomial<i16>; 4] {
         let mut rng: StdRng = SeedableRng::from_seed(seed);
-        let (f, g, capital_f, capital_g) = ntru_gen(N, &mut rng);
-        [g, -f, capital_g, -capital_f]
+        // The serialization format is fixed-width. Like the reference implementation,
+        // resample (continuing the same random stream) until all coefficients fit.
+        let fg_limit = 1i16 << (Self::field_element_width(N, 0) - 1);
+        let capital_limit = 1i16 << (Self::field_element_width(N, 2) - 1);
+        let fits = |p: &Polynomial<i16>, limit: i16| {
+            p.coefficients.iter().all(|&c| -limit < c && c < limit)
+        };
+        loop {
+            let (f, g, capital_f, capital_g) = ntru_gen(N, &mut rng);
+            if fits(&f, fg_limit)
+                && fits(&g, fg_limit)
+                && fits(&capital_f, capital_limit)
+                && fits(&capital_g, capital_limit)
+            {
+                return [g, -f, capital_g, -capital_f];
+            }
+        }
     }
 
     pub(crate) fn from_b0(b0: [Polynomial<i16>; 4]) -> Self {
